@@ -212,7 +212,10 @@ def build(seed, tier, log=vp.log):
         res = genrun.pipe_resilient(exe, lines)
         for k, r in zip(ks, res):
             cases[k].impl = parse_impl(r)
-    log("stream: implementation ran %d cases, %.1fs" % (len(cases), time.time() - t0))
+    # requests that were not run at all (the grammar hung on an earlier input and is not run again) are no cases
+    skipped_cases = sum(1 for c in cases if c.impl["k"] == "SKIPPED")
+    cases = [c for c in cases if c.impl["k"] != "SKIPPED"]
+    log("stream: implementation ran %d cases (%d not run after a hang), %.1fs" % (len(cases), skipped_cases, time.time() - t0))
     # model and specification: grammars in parallel chunks, each under a time and memory limit; a grammar
     # that blows the limits (exponential backtracking of an unmemoized twin, say) is isolated and its cases dropped
     by_g = collections.defaultdict(list)
@@ -257,7 +260,8 @@ def build(seed, tier, log=vp.log):
     log("stream: model and spec ran, %.1fs" % (time.time() - t0))
     for g in gs:
         g.gg = None   # not picklable / not needed
-    return {"grammars": gs, "cases": cases, "exes": exes, "wall": time.time() - t0, "skipped_grammars": skipped}
+    return {"grammars": gs, "cases": cases, "exes": exes, "wall": time.time() - t0, "skipped_grammars": skipped,
+            "cases_not_run_after_a_hang": skipped_cases}
 
 
 def get(ctx):
